@@ -63,6 +63,19 @@ CLAIMS = {
              '"inserts nothing but commas"',
         technique='Lean 4 proof (table obligations by decide, structural lemmas) + correspondence + doc oracles',
         ref='DESIGN.md §5 C15'),
+    'C13': dict(
+        text='Lean 4 theorems about the sort model (key extraction, per-field comparator with function and '
+             'direction, None smallest, lexicographic over any number of fields, stable merge sort, reverse): '
+             'cmpKeys_transCmp / le_trans / le_total (the comparison is a total preorder for EVERY field list), '
+             'sort_perm, sort_ordered, sort_stable, sort_keeps_sorted_sublists, sort_sorted_id, none_first, '
+             'desc_inverts, nocase_compares_lowered, key_extraction, reverse_exact, no_sort_identity, display_perm; '
+             'correspondence of the displayed order against the real tag over objects/mappings/2-tuples/plain '
+             'items, 8 key types, cmp/nocase/user function, asc/desc, sort_expr, reverse(_expr), batching',
+        note='Trusted: Lean kernel; CPython list.sort stability/consistency on homogeneous keys; model validated by '
+             'correspondence with the None-group order canonicalised. Partial: /nocase with a None key raises '
+             '(finding C13-nocase-none)',
+        technique='Lean 4 proof (TransCmp instances + core mergeSort lemmas) + correspondence',
+        ref='DESIGN.md §5 C13'),
 }
 
 NA_REASON = 'check not built yet in this round (planned, see DESIGN.md §5)'
